@@ -62,7 +62,7 @@ pub unsafe fn stub_transform_ls(block: __m128i, table: &Table) -> __m128i {
 
 // ---------------------------------------------------------------------------------------------------------- leaves
 
-//@ harness name=kuz_leaf_consts prop=C07,C20 tier=quick bits=16 est=20 desc="L: P[x] == pi(x), P_INV[x] == pi^-1(x), pi^-1(pi(x)) == x == pi(pi^-1(x)) for all octets x; KEYGEN[i] == C_{i+1} = L(Vec128(i+1)) for symbolic i in 0..32 (field arithmetic of the oracle computed)"
+//@ harness name=kuz_leaf_consts prop=C07,C20 tier=quick bits=16 est=30 desc="L: P[x] == pi(x), P_INV[x] == pi^-1(x), pi^-1(pi(x)) == x == pi(pi^-1(x)) for all octets x; KEYGEN[i] == C_{i+1} = L(Vec128(i+1)) for symbolic i in 0..32 (field arithmetic of the oracle computed)"
 verif_harness! {
     name: kuz_leaf_consts,
     bytes: 2,
@@ -76,7 +76,7 @@ verif_harness! {
     }
 }
 
-//@ harness name=kuz_leaf_sub_bytes prop=C07,C20 tier=quick bits=128 quick=C20 est=20 desc="L: sub_bytes(b, &P) == oracle S(b) and sub_bytes(b, &P_INV) == oracle S^-1(b) for all 2^128 b"
+//@ harness name=kuz_leaf_sub_bytes prop=C07,C20 tier=quick bits=128 quick=C20 est=25 desc="L: sub_bytes(b, &P) == oracle S(b) and sub_bytes(b, &P_INV) == oracle S^-1(b) for all 2^128 b"
 verif_harness! {
     name: kuz_leaf_sub_bytes,
     bytes: 16,
@@ -119,7 +119,7 @@ pub unsafe fn stub_load(p: *const __m128i) -> __m128i {
     core::mem::transmute::<u128, __m128i>(uf_load::call(p as usize))
 }
 
-//@ harness name=kuz_leaf_transform_flow prop=C07,C20 tier=quick bits=129 stub=1 quick=C20 est=35 desc="L: data flow of transform for all 2^128 b and both tables: transform(b, &T) == XOR over octet positions p of load(&T[4096 p + 16 b_p]), the 128-bit load being an uninterpreted function of its address; includes the alignment debug_assert and the in-bounds pointer arithmetic of all sixteen loads"
+//@ harness name=kuz_leaf_transform_flow prop=C07,C20 tier=quick bits=129 stub=1 quick=C20 est=45 desc="L: data flow of transform for all 2^128 b and both tables: transform(b, &T) == XOR over octet positions p of load(&T[4096 p + 16 b_p]), the 128-bit load being an uninterpreted function of its address; includes the alignment debug_assert and the in-bounds pointer arithmetic of all sixteen loads"
 verif_harness! {
     name: kuz_leaf_transform_flow,
     bytes: 17,
@@ -141,7 +141,7 @@ verif_harness! {
 
 // ---------------------------------------------------------------------------------------------------------- key schedule
 
-//@ harness name=kuz_sse2_keys prop=C07,C20 tier=quick bits=256 stub=1 quick=C20 est=80 desc="W: round keys of KuznyechikEnc::new(key) (sse2 expand_enc_keys, incl. the aligned loads of KEYGEN) == oracle K1..K10 (Feistel key schedule with the computed C_1..C_32) for all 2^256 keys; transform(., &ENC_TABLE) and the oracle's L S are ONE uninterpreted function (32 applications per side); the oracle's C_i come from the compile-time table (lemma kuz_oracle_consts)"
+//@ harness name=kuz_sse2_keys prop=C07,C20 tier=quick bits=256 stub=1 quick=C20 est=90 desc="W: round keys of KuznyechikEnc::new(key) (sse2 expand_enc_keys, incl. the aligned loads of KEYGEN) == oracle K1..K10 (Feistel key schedule with the computed C_1..C_32) for all 2^256 keys; transform(., &ENC_TABLE) and the oracle's L S are ONE uninterpreted function (32 applications per side); the oracle's C_i come from the compile-time table (lemma kuz_oracle_consts)"
 verif_harness! {
     name: kuz_sse2_keys,
     bytes: 32,
@@ -154,7 +154,7 @@ verif_harness! {
 // transform / sub_bytes := S, L uninterpreted inverse pairs (kz_common); arbitrary round keys (a superset of the key schedule's
 // outputs): with kuz_sse2_keys this is conformance for all keys.
 
-//@ harness name=kuz_sse2_enc_rk prop=C07,C03,C12,C20 tier=quick bits=1408 stub=1 quick=C03 est=35 desc="W: KuznyechikEnc over arbitrary round keys: encrypt_block == oracle E (9 LSX rounds + X), all round keys, all blocks"
+//@ harness name=kuz_sse2_enc_rk prop=C07,C03,C12,C20 tier=quick bits=1408 stub=1 quick=C03 est=40 desc="W: KuznyechikEnc over arbitrary round keys: encrypt_block == oracle E (9 LSX rounds + X), all round keys, all blocks"
 verif_harness! {
     name: kuz_sse2_enc_rk,
     bytes: 160 + 16,
@@ -178,7 +178,7 @@ verif_harness! {
     stubs: [(crate::sse2::backends::transform, stub_transform), (crate::sse2::backends::sub_bytes, stub_sub_bytes)],
     prop: |inp| { k::w_enc_rk(inp, Route::Val) }
 }
-//@ harness name=kuz_sse2_enc_rk_ref prop=C12,C03,C20 tier=quick bits=1408 stub=1 est=65 desc="W: Kuznyechik::from(&enc) (by reference): encrypt_block == oracle E, all round keys, all blocks"
+//@ harness name=kuz_sse2_enc_rk_ref prop=C12,C03,C20 tier=quick bits=1408 stub=1 est=55 desc="W: Kuznyechik::from(&enc) (by reference): encrypt_block == oracle E, all round keys, all blocks"
 verif_harness! {
     name: kuz_sse2_enc_rk_ref,
     bytes: 160 + 16,
@@ -216,7 +216,7 @@ verif_harness! {
 // conversions); the result must be the standard's D over the encryption round keys.  Assumed: the eight instances of the
 // linearity of L^-1 that the pre-transformed keys rely on (kz_common::lin_instances, lemma kuz_lin_linv).
 
-//@ harness name=kuz_sse2_dec_rk_val prop=C07,C03,C12,C20 tier=quick bits=1408 stub=1 quick=C03 est=255 need=6 desc="W: KuznyechikDec::from(enc) (by value, real inv_enc_keys) over arbitrary encryption round keys: decrypt_block == oracle D = X[K1] S^-1 L^-1 X[K2] ... S^-1 L^-1 X[K10], all round keys, all blocks (linearity instances of L^-1 assumed, lemma kuz_lin_linv)"
+//@ harness name=kuz_sse2_dec_rk_val prop=C07,C03,C12,C20 tier=quick bits=1408 stub=1 quick=C03 est=205 need=6 desc="W: KuznyechikDec::from(enc) (by value, real inv_enc_keys) over arbitrary encryption round keys: decrypt_block == oracle D = X[K1] S^-1 L^-1 X[K2] ... S^-1 L^-1 X[K10], all round keys, all blocks (linearity instances of L^-1 assumed, lemma kuz_lin_linv)"
 verif_harness! {
     name: kuz_sse2_dec_rk_val,
     bytes: 160 + 16,
@@ -224,7 +224,7 @@ verif_harness! {
     stubs: [(crate::sse2::backends::transform, stub_transform), (crate::sse2::backends::sub_bytes, stub_sub_bytes)],
     prop: |inp| { k::w_dec_rk(inp, Route::Val, false, true) }
 }
-//@ harness name=kuz_sse2_dec_rk_ref prop=C12,C07,C03,C20 tier=quick bits=1408 stub=1 est=180 need=6 desc="W: KuznyechikDec::from(&enc) (by reference): decrypt_block == oracle D, all round keys, all blocks (linearity instances of L^-1 assumed, lemma kuz_lin_linv)"
+//@ harness name=kuz_sse2_dec_rk_ref prop=C12,C07,C03,C20 tier=quick bits=1408 stub=1 est=165 need=6 desc="W: KuznyechikDec::from(&enc) (by reference): decrypt_block == oracle D, all round keys, all blocks (linearity instances of L^-1 assumed, lemma kuz_lin_linv)"
 verif_harness! {
     name: kuz_sse2_dec_rk_ref,
     bytes: 160 + 16,
@@ -275,7 +275,7 @@ verif_harness! {
     stubs: [(crate::sse2::backends::transform, stub_transform), (crate::sse2::backends::sub_bytes, stub_sub_bytes)],
     prop: |inp| { k::w_roundtrip_rk(inp, 0, true) }
 }
-//@ harness name=kuz_sse2_rt_ed prop=C01,C20 tier=quick bits=1408 stub=1 est=150 need=5 desc="W: Kuznyechik::from(&enc): dec(enc(b)) == b, arbitrary round keys, all blocks (S, L uninterpreted inverse pairs) (linearity instances of L^-1 assumed, lemma kuz_lin_linv)"
+//@ harness name=kuz_sse2_rt_ed prop=C01,C20 tier=quick bits=1408 stub=1 est=155 need=5 desc="W: Kuznyechik::from(&enc): dec(enc(b)) == b, arbitrary round keys, all blocks (S, L uninterpreted inverse pairs) (linearity instances of L^-1 assumed, lemma kuz_lin_linv)"
 verif_harness! {
     name: kuz_sse2_rt_ed,
     bytes: 160 + 16,
